@@ -938,6 +938,38 @@ Proof.
   intros Hall Hcp Hn Hout Hsur. exact (VInv_steps_drained _ _ _ _ _ Hci Hvi Htok Hsteps Hall Hcp Hn Hout Hsur).
 Qed.
 
+(** C13 from deployment (guaranteed-tickets-v2): at every state of the claim period nobody has received
+    more than the entitlement, the stored schedule adds up to 100 %, and a settled winner's claim brings
+    the cumulative receipts to exactly floor(entitlement x unlocked % / 100 %), never above the entitlement *)
+Theorem deployed_vesting_v2 w0 lf wf ef bf w1 ls ws es bs w2 sd rest ld wd ed bd w3 w4 :
+  setup_reach_gt H Gt2 w0 ->
+  deposited (st w0) = true -> 0 < price (st w0) ->
+  after_interrupted filter_tickets lf w0 = Some wf -> filter_tickets ef bf wf = Ok (w1, 0) ->
+  seeds w1 = sd :: rest ->
+  after_interrupted (select_winners H) ls w1 = Some ws -> select_winners H es bs ws = Ok (w2, 0) ->
+  after_interrupted (distribute_guaranteed_tickets H true) ld w2 = Some wd ->
+  distribute_guaranteed_tickets H true ed bd wd = Ok (w3, 0) ->
+  vsteps true w3 w4 ->
+  (forall a, claimed_balance (st w4) a <= total_claimable (st w4) a) /\
+  sumN (map snd (schedule_v2 (st w4))) = MAX_PERCENTAGE /\
+  (forall e w5, claimed (st w4) (caller e) = true -> 0 < total_claimable (st w4) (caller e) ->
+     claim_vested true e w4 = Ok w5 ->
+     let total := total_claimable (st w4) (caller e) in
+     claimed_balance (st w5) (caller e) = vested_v2 (st w4) total (round e) /\
+     claimed_balance (st w4) (caller e) <= claimed_balance (st w5) (caller e) /\
+     claimed_balance (st w5) (caller e) <= total /\ total_claimable (st w5) (caller e) = total).
+Proof.
+  intros Hr Hdep Hprice Haf Ef Hs Has Es Had Ed Hsteps.
+  assert (Hv : guar Gt2) by (right; right; right; reflexivity).
+  destruct (deployed_vested_drained Gt2 w0 lf wf ef bf w1 ls ws es bs w2 sd rest ld wd ed bd w3 w4 Hv Hr Hdep Hprice Haf Ef Hs Has Es Had Ed Hsteps)
+    as (l & _ & Hvi & _).
+  cbn [vflag] in Hvi. pose proof (vi_sched _ _ _ _ Hvi) as Hsch. unfold sched_inv in Hsch.
+  split; [exact (vi_le _ _ _ _ Hvi)|]. split; [exact Hsch|].
+  intros e w5 Hcl Htot E. cbn zeta.
+  destruct (claim_vested_v2_cumulative e w4 w5 Hcl Htot E) as (Hle & Heq & Htc & _). cbn zeta in *.
+  split; [exact Heq|]. split; [rewrite Heq; exact Hle|]. split; [rewrite Heq; apply vested_v2_bounded; exact Hsch|exact Htc].
+Qed.
+
 (** the contracts with guarantees that pay at once (migration, locked-tokens-and-guaranteed-tickets):
     the cover invariant of [ClaimLedger] at the start of the claim period *)
 Corollary deployed_cover_gt v w0 lf wf ef bf w1 ls ws es bs w2 sd rest ld wd ed bd w3 :
